@@ -22,7 +22,7 @@ from spec import table
 from sx import rt
 from sx.core import ctx
 
-BOUNDS = {"quick": {"A": "operand shapes over key pools per level [ab,ab], [a,a,ab] and [ab,a,a] (every key absent / leaf / nested), every frozenset iteration order", "B": "1..3 files from the pool {a.json, b.json, c.v2.json, d.json}, every glob order; dict documents over keys {a,b}: nested one level for 1-2 files, flat for 3 files; list documents and v2 documents of <= 2 entries x <= 2 codes"},
+BOUNDS = {"quick": {"A": "operand shapes over key pools per level [ab,ab], [a,a,ab] and [ab,a,a] (every key absent / leaf / nested), every frozenset iteration order", "B": "1..3 files from the pool {a.json, a-x.json, b.json, c.v2.json}, every glob order; dict documents over keys {a,b}: nested one level for 1-2 files, flat for 3 files; list documents and v2 documents of <= 2 entries x <= 2 codes"},
           "thorough": {"A": "key pools per level [abc,abc], [ab,ab,ab], [a,a,a,ab]", "B": "as quick, single dict documents nested two levels"}}
 STUBS = ["importlib.resources.files / Path.glob / Path.open replaced by in-memory stub paths (json.load runs for real on the generated text)", "frozenset iteration order = fork"]
 ASSUMPTIONS = ["leaves are opaque to the code under test (it never inspects them); the exhaustive part is the shape tree, the solver only decides leaf identity",
@@ -189,7 +189,7 @@ class StubPath(pathlib.PurePosixPath):
         return io.StringIO(StubPath._files[self.name])
 
 
-POOL = ["a.json", "b.json", "c.v2.json", "d.json"]
+POOL = ["a.json", "a-x.json", "b.json", "c.v2.json"]  # "a-x.json" < "a.json" by name but not by stem
 
 
 def run_get(job, res):
